@@ -513,7 +513,8 @@ fn check_enc(c: &EncCase, p: &mut Probe) -> Check {
     let s = Scratch::new();
     let (n, r) = (c.h.cols, c.h.rows);
     let k = n - r;
-    let text = own_alist(&c.h, true);
+    // the alist file in the padded or in the unpadded form (both are accepted by the parser)
+    let text = own_alist(&c.h, (c.words.len() + c.trailing) % 2 == 0);
     let (fa, fi, fo) = (s.path("h.alist"), s.path("in.bin"), s.path("out.bin"));
     std::fs::write(&fa, &text).map_err(|e| Fail::new(INCONCLUSIVE, format!("scratch write: {e}")))?;
     let mut input: Vec<u8> = c.words.iter().flatten().copied().collect();
@@ -618,7 +619,7 @@ fn ber_strategy(_t: Tier) -> BoxedStrategy<BerCase> {
                 proptest::collection::vec(prop::bool::weighted(0.3), r * r),
                 proptest::collection::vec(any::<u16>(), r),
                 (proptest::collection::vec(any::<bool>(), p), any::<u16>(), prop::bool::weighted(0.4), 0..3u8, any::<u16>(), any::<bool>()),
-                (prop_oneof![Just(-2.0f64), Just(-1.5), Just(0.0), Just(0.25), Just(1.0)], prop_oneof![Just(0.5f64), Just(0.25), Just(1.0)], 1usize..=3, any::<bool>(),
+                (prop_oneof![Just(-2.0f64), Just(-1.5), Just(0.0), Just(0.25), Just(1.0)], prop_oneof![4 => Just(0.5f64), 4 => Just(0.25), 4 => Just(1.0), 1 => Just(0.004), 1 => Just(0.0025)], 1usize..=3, any::<bool>(),
                     // decimal grids (steps that are not binary fractions), long sweeps included
                     prop_oneof![5 => Just((0i32, 0i32, 0usize)), 1 => (prop_oneof![Just(-100i32), Just(-50), Just(0), Just(30)], prop_oneof![Just(10i32), Just(20), Just(30), Just(70)], 1usize..=4), 2 => (prop_oneof![Just(-100i32), Just(0)], prop_oneof![3 => Just(10i32), 1 => Just(20)], 12usize..=21)]),
                 (3u64..=8, 3usize..=20, 0..36usize, 0u64..=1, any::<bool>(), prop_oneof![9 => Just(0u8), 1 => 1u8..=4]),
@@ -681,7 +682,7 @@ fn check_ber(c: &BerCase, p: &mut Probe) -> Check {
     // On a decimal grid whose last point is exactly the maximum, whether that point is "requested"
     // is decided by floating-point rounding of (max - min) / step; the exact count is only demanded
     // where the straightforward evaluation in f64 agrees with the exact decimal count.
-    let unambiguous = c.dstep == 0 || c.extra_half_step || ((vmax - vmin) / vstep).floor() as usize + 1 == c.points;
+    let unambiguous = c.extra_half_step || ((vmax - vmin) / vstep).floor() as usize + 1 == c.points;
     let mut args = sv(&["ber", &fa, "--output-file", &fo, "--min-ebn0", &smin, "--max-ebn0", &smax, "--step-ebn0", &sstep, "--frame-errors", &c.frame_errors.to_string(), "--max-iter", &c.max_iter.to_string(), "--decoder", &c.decoder]);
     // negative numbers must be passed as --opt=value
     for i in 0..args.len() {
@@ -741,6 +742,7 @@ fn check_ber(c: &BerCase, p: &mut Probe) -> Check {
         ensure!(lines.len() == c.points || lines.len() + 1 == c.points, "ber-lines", "{args:?}: {} result lines in the output file, {} or {} Eb/N0 points requested:\n{out}", lines.len(), c.points - 1, c.points);
     }
     p.class_if(c.dstep > 0, "decimal-grid");
+    p.class_if(vstep < 0.01 && c.points >= 2, "step-finer-than-the-printed-resolution");
     p.class_if(c.dstep > 0 && c.points >= 12, "decimal-grid-long-sweep");
     let kf = k as f64;
     let check_line = |l: &Vec<String>, i: usize, which: &str, min_bits_per_err: u64, stop: bool| -> Check {
@@ -886,7 +888,7 @@ pub fn property() -> Property {
             }),
             Box::new(Sub {
                 name: "encode",
-                rule: "generated systematic H (k >= 1, n = pattern length x block size up to 66, one case in 13 up to 440), optional puncturing pattern dividing n, input file of 0..=5 (one case in 13: 700..=3000, i.e. several I/O buffers) complete words plus 0..k-1 trailing bytes: the output file is exactly the concatenation of the (punctured) codewords of the library encoder, nothing more; bad pattern, missing input, missing alist, pattern not dividing n: non-zero status, no panic; non-trivial = at least one word",
+                rule: "generated systematic H (k >= 1, n = pattern length x block size up to 66, one case in 13 up to 440; alist file in the padded or the unpadded form), optional puncturing pattern dividing n, input file of 0..=5 (one case in 13: 700..=3000, i.e. several I/O buffers) complete words plus 0..k-1 trailing bytes: the output file is exactly the concatenation of the (punctured) codewords of the library encoder, nothing more; bad pattern, missing input, missing alist, pattern not dividing n: non-zero status, no panic; non-trivial = at least one word",
                 cases: |t| t.pick(2_000, 40_000),
                 strategy: enc_strategy,
                 check: check_enc,
@@ -894,7 +896,7 @@ pub fn property() -> Property {
             }),
             Box::new(Sub {
                 name: "ber",
-                rule: "tiny systematic H, Eb/N0 grid with binary-exact min/step and 1..=3 points, or a decimal grid (step 0.1/0.2/0.3/0.7 dB, 1..=4 or 12..=21 points, passed as decimal strings; the exact number of points is demanded whenever max lies half a step beyond the last point or the f64 evaluation of floor((max-min)/step)+1 agrees with the exact decimal count), optionally max = last point + step/2, --frame-errors 3..=8, any of the 36 decoders, optional outer-code threshold 1 with LDPC-only file, optional puncturing / interleaving / 8PSK: exit 0, one result line per requested point in each output file with frame errors = requested (stop rule), bit errors within [min per frame error x frame errors, k x frames], false decodes <= frames, BER and FER equal to the ratios at the printed precision; missing alist, malformed pattern, unknown decoder, result file in a directory that does not exist: non-zero status, no panic; non-trivial = >= 2 points or outer code",
+                rule: "tiny systematic H, Eb/N0 grid with binary-exact min/step and 1..=3 points (one case in seven: a step of 0.004 or 0.0025 dB, finer than the two decimals of the result lines), or a decimal grid (step 0.1/0.2/0.3/0.7 dB, 1..=4 or 12..=21 points, passed as decimal strings; the exact number of points is demanded whenever max lies half a step beyond the last point or the f64 evaluation of floor((max-min)/step)+1 agrees with the exact decimal count), optionally max = last point + step/2, --frame-errors 3..=8, any of the 36 decoders, optional outer-code threshold 1 with LDPC-only file, optional puncturing / interleaving / 8PSK: exit 0, one result line per requested point in each output file with frame errors = requested (stop rule), bit errors within [min per frame error x frame errors, k x frames], false decodes <= frames, BER and FER equal to the ratios at the printed precision; missing alist, malformed pattern, unknown decoder, result file in a directory that does not exist: non-zero status, no panic; non-trivial = >= 2 points or outer code",
                 cases: |t| t.pick(400, 8_000),
                 strategy: ber_strategy,
                 check: check_ber,
